@@ -183,6 +183,14 @@ func short2Tag(id uint16, name, field string) tagSpec {
 	}}
 }
 
+// longAltTag: a field the Exif specification types SHORT, written as LONG (count 1). What a reader reports for it is
+// not defined (the field is left undetermined for the exact-value checks); C07 requires II and MM to agree on it.
+func longAltTag(id uint16, name, field string, pick func(rng *rand.Rand) uint16) tagSpec {
+	return tagSpec{id, name, func(rng *rand.Rand, size int) (LVal, map[string]interface{}) {
+		return LVal{Typ: tLong, Longs: []uint32{uint32(pick(rng))}}, map[string]interface{}{"~skip:" + field: true}
+	}}
+}
+
 func longTag(id uint16, name, field string, max uint32) tagSpec {
 	return tagSpec{id, name, func(rng *rand.Rand, size int) (LVal, map[string]interface{}) {
 		v := 1 + uint32(rng.Int63n(int64(max)))
@@ -268,12 +276,13 @@ func subsecTag(id uint16, name, field string) tagSpec {
 
 var catalog = map[string]map[string][]tagSpec{
 	"IFD0": {
-		"embShort":  {shortTag(0x0112, "Orientation", "Orientation", oneOf(1, 2, 3, 4, 5, 6, 7, 8)), shortTag(0x0100, "ImageWidth", "ImageWidth", any16), shortTag(0x0101, "ImageLength", "ImageHeight", any16)},
-		"embLong":   {longTag(0x0100, "ImageWidth", "ImageWidth", 65535), longTag(0x0101, "ImageLength", "ImageHeight", 65535), longTag(0x0111, "StripOffsets", "StripOffsets", 1<<31), longTag(0x0117, "StripByteCounts", "StripByteCounts", 1<<31)},
-		"embShort2": {short2Tag(0x0111, "StripOffsets", "StripOffsets"), short2Tag(0x0117, "StripByteCounts", "StripByteCounts")},
-		"embAscii":  {strTag(0x0131, "Software", "Software"), strTag(0x013b, "Artist", "Artist"), strTag(0x8298, "Copyright", "Copyright"), strTag(0x010e, "ImageDescription", "ImageDescription")},
-		"ascii":     {strTag(0x010f, "Make", "Make"), strTag(0x0110, "Model", "Model"), strTag(0x0131, "Software", "Software"), strTag(0x013b, "Artist", "Artist"), strTag(0x8298, "Copyright", "Copyright"), strTag(0x010e, "ImageDescription", "ImageDescription"), strTag(0xc62f, "CameraSerialNumber", "CameraSerial")},
-		"date":      {dateTag(0x0132, "DateTime", "ModifyDate")},
+		"embShort":   {shortTag(0x0112, "Orientation", "Orientation", oneOf(1, 2, 3, 4, 5, 6, 7, 8)), shortTag(0x0100, "ImageWidth", "ImageWidth", any16), shortTag(0x0101, "ImageLength", "ImageHeight", any16)},
+		"embLong":    {longTag(0x0100, "ImageWidth", "ImageWidth", 65535), longTag(0x0101, "ImageLength", "ImageHeight", 65535), longTag(0x0111, "StripOffsets", "StripOffsets", 1<<31), longTag(0x0117, "StripByteCounts", "StripByteCounts", 1<<31)},
+		"embShort2":  {short2Tag(0x0111, "StripOffsets", "StripOffsets"), short2Tag(0x0117, "StripByteCounts", "StripByteCounts")},
+		"embLongAlt": {longAltTag(0x0112, "Orientation", "Orientation", oneOf(1, 2, 3, 4, 5, 6, 7, 8))},
+		"embAscii":   {strTag(0x0131, "Software", "Software"), strTag(0x013b, "Artist", "Artist"), strTag(0x8298, "Copyright", "Copyright"), strTag(0x010e, "ImageDescription", "ImageDescription")},
+		"ascii":      {strTag(0x010f, "Make", "Make"), strTag(0x0110, "Model", "Model"), strTag(0x0131, "Software", "Software"), strTag(0x013b, "Artist", "Artist"), strTag(0x8298, "Copyright", "Copyright"), strTag(0x010e, "ImageDescription", "ImageDescription"), strTag(0xc62f, "CameraSerialNumber", "CameraSerial")},
+		"date":       {dateTag(0x0132, "DateTime", "ModifyDate")},
 	},
 	"Exif": {
 		"embLong": {longTag(0xa002, "PixelXDimension", "ImageWidth", 65535), longTag(0xa003, "PixelYDimension", "ImageHeight", 65535)},
@@ -281,8 +290,10 @@ var catalog = map[string]map[string][]tagSpec{
 			shortTag(0x9207, "MeteringMode", "MeteringMode", oneOf(0, 1, 2, 3, 4, 5, 6, 255)), shortTag(0x9209, "Flash", "Flash", oneOf(0, 1, 5, 7, 8, 9, 13, 15, 16, 24, 25, 29, 31, 32, 65, 69, 71, 73, 77, 79, 89, 93, 95)),
 			shortTag(0xa402, "ExposureMode", "ExposureMode", oneOf(0, 1, 2)), shortTag(0xa405, "FocalLengthIn35mmFilm", "FocalLengthIn35mmFormat", any16)},
 		"embShort2": {short2Tag(0x8827, "ISOSpeedRatings", "ISOSpeed")},
-		"embAscii":  {subsecTag(0x9290, "SubSecTime", "ModifyDate"), subsecTag(0x9291, "SubSecTimeOriginal", "DateTimeOriginal"), subsecTag(0x9292, "SubSecTimeDigitized", "CreateDate")},
-		"rat":       {ratTag(0x829a, "ExposureTime", "ExposureTime"), ratTag(0x829d, "FNumber", "FNumber"), ratTag(0x920a, "FocalLength", "FocalLength")},
+		"embLongAlt": {longAltTag(0x8822, "ExposureProgram", "ExposureProgram", oneOf(1, 2, 3, 4)), longAltTag(0x9207, "MeteringMode", "MeteringMode", oneOf(1, 2, 3, 5)),
+			longAltTag(0x9209, "Flash", "Flash", oneOf(1, 5, 9, 16)), longAltTag(0xa402, "ExposureMode", "ExposureMode", oneOf(1, 2))},
+		"embAscii": {subsecTag(0x9290, "SubSecTime", "ModifyDate"), subsecTag(0x9291, "SubSecTimeOriginal", "DateTimeOriginal"), subsecTag(0x9292, "SubSecTimeDigitized", "CreateDate")},
+		"rat":      {ratTag(0x829a, "ExposureTime", "ExposureTime"), ratTag(0x829d, "FNumber", "FNumber"), ratTag(0x920a, "FocalLength", "FocalLength")},
 		"srat": {{0x9204, "ExposureBiasValue", func(rng *rand.Rand, size int) (LVal, map[string]interface{}) {
 			n, d := rng.Intn(256)-128, 1+rng.Intn(127)
 			return LVal{Typ: tSRational, Rats: [][2]uint32{{uint32(int32(n)), uint32(d)}}}, map[string]interface{}{"ExposureBias": float64(int16(n)<<8 + int16(d))}
